@@ -77,12 +77,15 @@ type vpC14 struct {
 	expect  uint32         // next chunk index the app must see
 	applied int
 
-	rejectedSnapshots [][]byte // hashes
-	rejectedFormats   map[uint32]bool
-	rejectedSenders   map[p2p.ID]bool
-	offers            int
-	infoExact         bool
-	infoCalls         int
+	rejectedSnapshots       [][]byte // hashes
+	rejectedFormats         map[uint32]bool
+	rejectedSenders         map[p2p.ID]bool
+	offers                  int
+	lastVerdictEndedRestore bool
+	advertisers             map[string][]p2p.ID // snapshot hash -> peers that advertised it
+	refetchWanted           map[uint32]bool     // chunk indexes the application asked to refetch and that were not requested again yet
+	infoExact               bool
+	infoCalls               int
 }
 
 func (w *vpC14) adversarial(name string, n int) int {
@@ -141,6 +144,9 @@ func (w *vpC14) OfferSnapshotSync(req abci.RequestOfferSnapshot) (*abci.Response
 	case 4:
 		res = abci.ResponseOfferSnapshot_ABORT
 	}
+	// a restore that ended (this is a new offer) must not have left a refetch request unanswered
+	// while a peer that could serve it was still there
+	w.checkRefetchHonoured()
 	if res == abci.ResponseOfferSnapshot_ACCEPT {
 		vp.Reach("snapshot-accepted")
 		if w.cur == nil || !bytes.Equal(w.cur.Hash, sn.Hash) {
@@ -174,11 +180,13 @@ func (w *vpC14) ApplySnapshotChunkSync(req abci.RequestApplySnapshotChunk) (*abc
 		resp.Result = abci.ResponseApplySnapshotChunk_RETRY
 		resp.RefetchChunks = []uint32{req.Index}
 		delete(w.arrived, req.Index)
+		w.refetchWanted[req.Index] = true
 	case 6: // the sender of this chunk is rejected; refetch and retry
 		resp.Result = abci.ResponseApplySnapshotChunk_RETRY
 		resp.RefetchChunks = []uint32{req.Index}
 		resp.RejectSenders = []string{req.Sender}
 		w.rejectedSenders[p2p.ID(req.Sender)] = true
+		w.refetchWanted[req.Index] = true
 		for i, a := range w.arrived {
 			if string(a.sender) != req.Sender {
 				continue
@@ -192,6 +200,7 @@ func (w *vpC14) ApplySnapshotChunkSync(req abci.RequestApplySnapshotChunk) (*abc
 		}
 		vp.Reach("sender-rejected?")
 	}
+	w.lastVerdictEndedRestore = resp.Result != abci.ResponseApplySnapshotChunk_ACCEPT && resp.Result != abci.ResponseApplySnapshotChunk_RETRY
 	switch resp.Result {
 	case abci.ResponseApplySnapshotChunk_ACCEPT:
 		w.expect = req.Index + 1
@@ -224,6 +233,20 @@ func (w *vpC14) InfoSync(abci.RequestInfo) (*abci.ResponseInfo, error) {
 	return res, nil
 }
 
+func (w *vpC14) checkRefetchHonoured() {
+	if w.cur == nil || len(w.refetchWanted) == 0 {
+		return
+	}
+	live := 0
+	for _, id := range w.advertisers[string(w.cur.Hash)] {
+		if !w.rejectedSenders[id] {
+			live++
+		}
+	}
+	vp.Assert(live == 0 || w.lastVerdictEndedRestore, "C14.fetch.a-refetch-request-is-honoured-while-a-peer-can-serve-it")
+	w.refetchWanted = map[uint32]bool{}
+}
+
 // onSend: a peer is asked for something.
 func (w *vpC14) onSend(p *vpPeer, e p2p.Envelope) {
 	req, ok := e.Message.(*ssproto.ChunkRequest)
@@ -234,6 +257,7 @@ func (w *vpC14) onSend(p *vpPeer, e p2p.Envelope) {
 	if w.cur == nil || req.Height != w.cur.Height || req.Format != w.cur.Format {
 		return
 	}
+	delete(w.refetchWanted, req.Index)
 	deliver := func(from p2p.ID, idx uint32, variant byte) {
 		c := &chunk{Height: req.Height, Format: req.Format, Index: idx, Chunk: vpChunkBytes(w.cur, idx, variant), Sender: from}
 		added, _ := w.s.AddChunk(c)
@@ -264,7 +288,7 @@ func (w *vpC14) onSend(p *vpPeer, e p2p.Envelope) {
 // ---------------------------------------------------------------- the harness
 
 func vpC14Sync(budget int) {
-	w := &vpC14{peers: map[p2p.ID]*vpPeer{}, budget: budget, arrived: map[uint32]vpArrival{}, rejectedFormats: map[uint32]bool{}, rejectedSenders: map[p2p.ID]bool{}}
+	w := &vpC14{peers: map[p2p.ID]*vpPeer{}, budget: budget, arrived: map[uint32]vpArrival{}, refetchWanted: map[uint32]bool{}, advertisers: map[string][]p2p.ID{}, rejectedFormats: map[uint32]bool{}, rejectedSenders: map[p2p.ID]bool{}}
 	cfg := *config.DefaultStateSyncConfig()
 	cfg.ChunkFetchers = 1
 	vp.Opt("timerfires", 2000)
@@ -276,20 +300,25 @@ func vpC14Sync(budget int) {
 	s2 := func() *snapshot { return &snapshot{Height: 10, Format: 2, Chunks: 1, Hash: []byte{0x52}} }
 	s3 := func() *snapshot { return &snapshot{Height: 20, Format: 1, Chunks: 1, Hash: []byte{0x53}} } // no such height on the chain
 	s4 := func() *snapshot { return &snapshot{Height: 11, Format: 1, Chunks: 1, Hash: []byte{0x54}} }
+	adv := func(id p2p.ID, sn *snapshot) {
+		w.s.AddSnapshot(w.peers[id], sn)
+		w.advertisers[string(sn.Hash)] = append(w.advertisers[string(sn.Hash)], id)
+	}
 	switch vp.Choice("advertised", 3) {
 	case 0:
-		w.s.AddSnapshot(w.peers["p1"], s1())
-		w.s.AddSnapshot(w.peers["p2"], s1())
-		w.s.AddSnapshot(w.peers["p2"], s2())
+		adv("p1", s1())
+		adv("p2", s1())
+		adv("p2", s2())
 	case 1:
-		w.s.AddSnapshot(w.peers["p1"], s3())
-		w.s.AddSnapshot(w.peers["p1"], s1())
+		adv("p1", s3())
+		adv("p1", s1())
 	case 2:
-		w.s.AddSnapshot(w.peers["p1"], s4())
-		w.s.AddSnapshot(w.peers["p2"], s1())
-		w.s.AddSnapshot(w.peers["p2"], s2())
+		adv("p1", s4())
+		adv("p2", s1())
+		adv("p2", s2())
 	}
 	state, commit, err := w.s.SyncAny(0, func() {})
+	w.checkRefetchHonoured()
 	if err == nil {
 		vp.Reach("restored")
 		vp.Assert(w.cur != nil && state.LastBlockHeight == int64(w.cur.Height) && bytes.Equal(state.AppHash, vpTrustedHash(w.cur.Height)) && commit.Height == int64(w.cur.Height), "C14.result.state-and-commit-are-the-light-verified-ones-for-the-restored-height")
